@@ -28,7 +28,7 @@ func (c18) ID() string { return "C18" }
 func (c18) Meta(tier string) engine.Meta {
 	return engine.Meta{
 		Level: "model_checking",
-		Rule: "all ordered pairs of values of one type, for 11 types: numbers {0,-0,1,1+2e-9,0.1,2^53,2^53+2,2^63,2^63+2048,1e300,1e301,-1e300}, strings needing escapes, booleans, instants (incl. the same instant in another zone and with sub-second parts), lists of <= 2 numbers, lists of objects, string- and number-keyed maps built in every insertion order, 3-field objects in all 6 field orders, nested objects, optionals; each pair as raw values and (where Go data can express it) as converted host data; plus programs in which one value is reached through two paths ([xs, xs], {a: xs, b: xs}, …) against the equal value built from separate copies; every pair under map-iteration seeds 1..8 (all orders the runtime can produce for <= 8 entries). Oracle (premise: numeric parts identical or further apart than the tolerance, guaranteed by the value sets): x == y (language operator on singleton lists), equal String(), equal Key() / isset / get on a map keyed by x, and union / intersect / diff element identity must all coincide with the reference's structural equality; reflexive on independently built copies, symmetric; String() identical for every seed. non-trivial = every pair",
+		Rule: "all ordered pairs of values of one type, for 11 types: numbers {0,-0,±1,1+2e-9,0.1,2^53,2^53+2,±2^63,±(2^63+2048),2^63-1024,1e300,1e301,-1e300}, strings needing escapes, booleans, instants (incl. the same instant in another zone and with sub-second parts), lists of <= 2 numbers, lists of objects, string- and number-keyed maps built in every insertion order, 3-field objects in all 6 field orders, nested objects, optionals; each pair as raw values and (where Go data can express it) as converted host data; plus programs in which one value is reached through two paths ([xs, xs], {a: xs, b: xs}, …) against the equal value built from separate copies; every pair under map-iteration seeds 1..8 (all orders the runtime can produce for <= 8 entries). Oracle (premise: numeric parts identical or further apart than the tolerance, guaranteed by the value sets): x == y (language operator on singleton lists), equal String(), equal Key() / isset / get on a map keyed by x, and union / intersect / diff element identity must all coincide with the reference's structural equality; reflexive on independently built copies, symmetric; String() identical for every seed. non-trivial = every pair",
 		Bound: "values of depth <= 2; containers of width <= 2 (objects 3); 8 seeds",
 		Assumptions: []string{"probe programs are compiled once per element type on the default back end and invoked per pair"},
 	}
@@ -36,7 +36,7 @@ func (c18) Meta(tier string) engine.Meta {
 
 func c18Values() map[string][]*ref.V {
 	N := gen.Num
-	ns := []float64{0, -0.0 * 1, 1, 1 + 2e-9, 0.1, gen.Pow53, gen.Pow53 + 2, gen.Pow63, gen.Pow63 + 2048, 1e300, 1e301, -1e300}
+	ns := []float64{0, -0.0 * 1, 1, 1 + 2e-9, 0.1, gen.Pow53, gen.Pow53 + 2, gen.Pow63, gen.Pow63 + 2048, 1e300, 1e301, -1e300, -gen.Pow63, -gen.Pow63 - 2048, -1, gen.Pow63 - 1024}
 	ns[1] = negZero()
 	out := map[string][]*ref.V{}
 	out["num"] = nums(ns...)
@@ -69,7 +69,7 @@ func c18Values() map[string][]*ref.V {
 		ref.MapV(gen.Str, N, ref.StrV("b"), ref.NumV(2), ref.StrV("c"), ref.NumV(3), ref.StrV("a"), ref.NumV(1)))
 	out["map[str,num]"] = msn
 	var mns []*ref.V
-	keys := []float64{1, 1 + 2e-9, 0.5, gen.Pow63, gen.Pow63 + 2048, 1e300, 1e301}
+	keys := []float64{1, 1 + 2e-9, 0.5, gen.Pow63, gen.Pow63 + 2048, 1e300, 1e301, -gen.Pow63, -1}
 	for _, k := range keys {
 		mns = append(mns, ref.MapV(N, gen.Str, ref.NumV(k), ref.StrV("x")))
 	}
